@@ -12,9 +12,7 @@ def ofModel (r : Except PyErr (List (Nat × Line))) : Json :=
   match r with
   | .error _ => Json.mkObj [("raise", Json.str "IndexError")]
   | .ok l => Json.mkObj [("lines", Json.arr (l.map fun (i, g) =>
-      let c := classify g
-      Json.mkObj [("start", ofNat i), ("word", ofLine c.word), ("spline", ofToks c.spline),
-                  ("tokens", ofToks (tokensOf g))]).toArray)]
+      Json.mkObj [("start", ofNat i), ("spline", ofToks (classify g).spline)]).toArray)]
 
 def ofNorm (r : Option (List (List Token))) : Json :=
   match r with
@@ -25,11 +23,14 @@ def handle (j : Json) : Except String Json := do
   let op ← strField j "op"
   match op with
   | "lines" =>
-    -- {"lines": [physical lines]}  ->  model (repaired code), model of the code as it was, spec
+    -- {"lines": [physical lines]}  ->  model (repaired code), spec   (only what the harness compares: the answer is large)
     let ls ← field j "lines" >>= strs
     let f := ls.map String.toList
-    return Json.mkObj [("model", ofModel (modelLogicalLines f)), ("old", ofModel (modelLogicalLinesOld f)),
-                       ("spec", ofNorm (norm f))]
+    return Json.mkObj [("model", ofModel (modelLogicalLines f)), ("spec", ofNorm (norm f))]
+  | "lines_old" =>
+    -- the code as it was before fixes/C05_1, C05_2
+    let ls ← field j "lines" >>= strs
+    return Json.mkObj [("old", ofModel (modelLogicalLinesOld (ls.map String.toList)))]
   | "mt" =>
     let l := (← strField j "line").toList
     return Json.mkObj [("model", Json.bool (mtNew l)), ("old", Json.bool (mtOld l)), ("spec", Json.bool (isContLine l))]
